@@ -278,7 +278,7 @@ func main() {
 		},
 		Rule:           "(sequential) BFS over all histories up to the depth bound of RegisterNode / RegisterPipeline with policies {default, AllowOverwrite, DenyOverwrite, invalid} for node ids n2,n3 and pipeline id p1 in two event types, interleaved with RemoveNode / RemovePipeline / RemovePipelineAndNodes and probe Sends; the reference model keeps the policy with the live registration; every call's error and every probe's deliveries (object identity: which registration generation of a node id a pipeline uses) are compared. (concurrent) 1-2 overwrites of t1/p1 racing with 1-2 Sends, all schedules within the preemption bound and all sync.Map.Range orders: every Send is processed by exactly one version, never a version registered after the Send ended, never a superseded version once the overwriting call had returned; two registrations of one pipeline id racing, one or both with DenyOverwrite (with and without an existing registration): never two successful Deny registrations, a successful Deny registration is the live version afterwards and stays sticky.",
 		Assumptions:    []string{"depth 6 (quick) / 8 (thorough); preemption bound 1-3 depending on the thread count"},
-		QuickBudget:    150 * time.Second,
+		QuickBudget:    300 * time.Second,
 		ThoroughBudget: 45 * time.Minute,
 	})
 }
